@@ -402,3 +402,18 @@ if __name__ == "__main__":
     fb = FactBase()
     for c, p in fb.programs.items():
         print(c, len(p.functions), "functions", p.unit_count(), "units")
+
+
+def extract_fixture(path, flags=("-std=gnu17",)):
+    """run the extractor on a small fixture file (positive example for expected-zero rules)"""
+    out = tempfile.mktemp(prefix="scpifix-", suffix=".json")
+    try:
+        p = subprocess.run([EXTRACTOR, "-o", out, path, "--"] + list(flags) + ["-w"],
+                           capture_output=True, text=True)
+        if p.returncode != 0 or not os.path.exists(out):
+            raise AnalysisBroken("extractor failed on fixture %s: %s" % (path, p.stderr[-500:]))
+        with open(out) as f:
+            return TU(path, json.load(f), "fixture")
+    finally:
+        if os.path.exists(out):
+            os.unlink(out)
